@@ -1,5 +1,7 @@
 from __future__ import annotations
 
+import textwrap
+
 from typing import TYPE_CHECKING, Final, NewType
 
 from .tokenize import Token, TokenInfo
@@ -240,8 +242,6 @@ class Tokenizer:
 
         string = "".join(lines.values())
         if is_indented:
-            import textwrap
-
             # dedent sees a blank CRLF line as text in column 0 (its "\r") and then removes nothing: hide the "\r"s from it
             src_lines = string.split("\n")
             out_lines = textwrap.dedent("\n".join(ln.removesuffix("\r") for ln in src_lines)).split("\n")
